@@ -229,7 +229,7 @@ func runC05(rec5, rec13 *vk.Rec, caseID, seedIdx int, regime string) {
 			c := live[r.Intn(len(live))]
 			ops = append(ops, c.name+" disconnect")
 			c.cl.Disconnect()
-			if !c.cl.WaitClosed(30e9) {
+			if !c.cl.WaitClosed(120e9) {
 				rec.Inconclusive("broker did not close")
 				return
 			}
